@@ -19,6 +19,19 @@ answer and an optimum (C03_generated_*).  A translation failure or a failing re-
 through chk.proof_broken and the correspondence runs continue.  In addition the generated def is
 executed next to the real nonrecursive_link (order of the returned sources and destination per
 source, tie-breaking included) and next to the machine model on perfect-square-cost graphs.
+
+Tie (route T, array-based solver): tools/py2coq_numbakernel.py re-translates the CURRENT source of
+_numba_subnet_norecur into coq/Gen/numbakernel.v; Proofs/NumbakernelGen.v proves that the generated kernel
+(`while 1` on explicit fuel, the two `for jtmp in range(nj)` loops, arrays with Python indexing, 1e23 as
+infinity) runs the stack machine of Model/Iterative.v with the switches (ties, up) = (true, true), one
+machine step per iteration, hence leaves an optimum in best_assignments (C03_generated_kernel_*).  The
+generated kernel is executed next to the real one: the real numba_link is run on perfect-square graphs
+with its call of _numba_subnet_norecur intercepted, and the generated kernel, started on the very arrays
+numba_link built, must leave the same loopcount and the same register arrays (best_assignments,
+cur_assignments, cur_sums, tmp_assignments); the arrays must represent the sources' candidate lists the
+way the theorems assume (kernel_inputs, executable form) and numba_link must decode best_assignments
+into the destinations it returns.  numba_link itself is NOT translated (sets, dicts, slices: outside
+the subset) - its array building is tied by this comparison only.
 """
 import os, sys, math, hashlib
 import numpy as np, pandas as pd, json
@@ -49,47 +62,81 @@ GENI_CODES = {0: 'ok', 40: 'the generated nonrecursive_link raises / runs out of
               45: 'the generated nonrecursive_link fell off the end without a return value'}
 
 
-def regenerate(chk):
-    """re-run the translator on the current source; returns (ok, text-or-log)"""
-    rc, out = common.sh([sys.executable, TRANSLATOR, '--repo', common.REPO, '--stdout'], timeout=60)
+TRANSLATOR_K = os.path.join(common.VERIF, 'tools', 'py2coq_numbakernel.py')
+GEN_K = os.path.join(common.COQ, 'Gen', 'numbakernel.v')
+GENK_IMPORTS = "From TP Require Import Model.Assign Model.NumbaGenCheck."
+GENK_FUNC = "check_gen_kernel"
+GENK_CODES = {0: 'ok', 50: 'the generated _numba_subnet_norecur raises / runs out of fuel where the real kernel returned',
+              51: 'the arrays numba_link handed to the kernel do not represent the candidate lists of the sources (kernel_inputs: counts, destination '
+                  'codes injective and non-negative, -1 for the null link, squared distances) or the cost bound fails',
+              52: 'the generated _numba_subnet_norecur (translated from the current source) returns another loopcount than the real kernel',
+              53: 'the generated _numba_subnet_norecur leaves other register arrays (best_assignments / cur_assignments / cur_sums / tmp_assignments) '
+                  'than the real kernel (translator or vocabulary unfaithful)',
+              54: 'the generated _numba_subnet_norecur differs from the stack-machine model with switches (true, true) on this input '
+                  '(contradicts C03_generated_kernel_is_machine)',
+              55: 'the generated _numba_subnet_norecur fell off the end without a return value',
+              56: 'numba_link returned destinations that are not the decoding of the best_assignments its kernel left',
+              57: 'numba_link did not call _numba_subnet_norecur exactly once'}
+
+
+def regenerate_one(chk, translator, gen):
+    """re-run one translator on the current source; returns (ok, text-or-log)"""
+    rc, out = common.sh([sys.executable, translator, '--repo', common.REPO, '--stdout'], timeout=60)
     if rc != 0:
         return False, out
+    name = 'Gen/' + os.path.basename(gen)
     with common.Lock(os.path.join(common.COQ, '.build.lock')):
-        old = open(GEN).read() if os.path.exists(GEN) else None
+        old = open(gen).read() if os.path.exists(gen) else None
         if old != out:
-            os.makedirs(os.path.dirname(GEN), exist_ok=True)
-            tmp = GEN + '.tmp%d' % os.getpid()
+            os.makedirs(os.path.dirname(gen), exist_ok=True)
+            tmp = gen + '.tmp%d' % os.getpid()
             with open(tmp, 'w') as f:
                 f.write(out)
-            os.replace(tmp, GEN)
-            chk.tally('Gen/iterative.v rewritten (source differs from last run)')
+            os.replace(tmp, gen)
+            chk.tally('%s rewritten (source differs from last run)' % name)
         else:
-            chk.tally('Gen/iterative.v unchanged')
+            chk.tally('%s unchanged' % name)
     return True, out
+
+
+def regenerate(chk):
+    """both translators; returns (ok, (text of Gen/iterative.v, text of Gen/numbakernel.v)) or (False, (what, log))"""
+    ok, text = regenerate_one(chk, TRANSLATOR, GEN)
+    if not ok:
+        return False, ('translation tools/py2coq_iterative.py (nonrecursive_link left the translatable subset)', text)
+    ok, textk = regenerate_one(chk, TRANSLATOR_K, GEN_K)
+    if not ok:
+        return False, ('translation tools/py2coq_numbakernel.py (_numba_subnet_norecur left the translatable subset)', textk)
+    return True, (text, textk)
 
 
 def build(chk):
     """translator -> cone of Properties/C03.v -> executable comparison file.  STATE['gen_ok'] tells the
     correspondence run whether the generated def can be executed."""
     STATE['gen_ok'] = False
-    ok, text = regenerate(chk)
+    STATE['genk_ok'] = False
+    ok, texts = regenerate(chk)
     if not ok:
-        chk.proof_broken('translation tools/py2coq_iterative.py (nonrecursive_link left the translatable subset)', text)
+        chk.proof_broken(texts[0], texts[1])
         chk.build = dict(obligations=0, discharged=0, assumptions=[], files=[], theorems=[])
         c02.ensure_vo(chk, ['Model/LinkCheck.vo', 'Model/Strategies.vo'], None)
         return False
+    text, textk = texts
     for attempt in range(3):
         b = chk.coq()
-        if open(GEN).read() == text:
+        if open(GEN).read() == text and open(GEN_K).read() == textk:
             break
-        # another run (different TRACKPY_REPO) rewrote the generated file in between: redo
+        # another run (different TRACKPY_REPO) rewrote a generated file in between: redo
         chk.violations = [v for v in chk.violations if not v[0].startswith('proof:')]
         regenerate(chk)
     chk.notes.append('Gen/iterative.v sha1 %s generated from %s' % (hashlib.sha1(text.encode()).hexdigest()[:12], common.REPO))
+    chk.notes.append('Gen/numbakernel.v sha1 %s generated from %s' % (hashlib.sha1(textk.encode()).hexdigest()[:12], common.REPO))
     if not b['ok']:
         c02.ensure_vo(chk, ['Model/LinkCheck.vo', 'Model/Strategies.vo'], None)
     STATE['gen_ok'] = c02.ensure_vo(chk, ['Model/IterGenCheck.vo'], 'Gen/iterative.v / Model/IterGenCheck.v (generated nonrecursive_link does not build)') \
         and open(GEN).read() == text
+    STATE['genk_ok'] = c02.ensure_vo(chk, ['Model/NumbaGenCheck.vo'], 'Gen/numbakernel.v / Model/NumbaGenCheck.v (generated _numba_subnet_norecur does not build)') \
+        and open(GEN_K).read() == textk
     return bool(b['ok'])
 
 
@@ -146,6 +193,104 @@ def gen_iter_harness(chk):
         if r != 0:
             chk.violation('generated nonrecursive_link: %s' % GENI_CODES.get(r, r), 'nonrecursive_link / Gen.iterative.py_nonrecursive_link: %s' % GENI_CODES.get(r, r),
                           dict(kind='geniter', code=r, graph=g, impl_choice=impl))
+
+
+def run_numba_kernel(g):
+    """the real numba_link on the sources in a FIXED order with its call of _numba_subnet_norecur intercepted.
+    Returns dict(calls=[(arrays before, loopcount, arrays after)], dests=[destination index or None per source])"""
+    from trackpy.linking import subnetlinker as sl
+    from trackpy.linking.utils import Point
+    Point.reset_counter()
+    R = math.sqrt(g['R2'])
+    dps = [Point(1, (float(j),)) for j in range(g['nd'])]
+    sps = []
+    for i, cs in enumerate(g['srcs']):
+        p = Point(0, (float(i),))
+        p.forward_cands = [(dps[d], math.sqrt(c)) for d, c in cs] + [(None, R)]
+        sps.append(p)
+    calls = []
+    real = sl._numba_subnet_norecur
+
+    def spy(*arrs):
+        before = [np.array(a).copy() for a in arrs]
+        lc = real(*arrs)
+        calls.append((before, lc, [np.array(a).copy() for a in arrs]))
+        return lc
+    sl._numba_subnet_norecur = spy
+    try:
+        spl, dpl = sl.numba_link(list(sps), g['nd'], R)
+    finally:
+        sl._numba_subnet_norecur = real
+    dpos = {id(p): k for k, p in enumerate(dps)}
+    ok_order = len(spl) == len(sps) and all(a is b for a, b in zip(spl, sps))
+    return dict(calls=calls, dests=[None if d is None else dpos[id(d)] for d in dpl], same_order=ok_order)
+
+
+def exact_int(x):
+    """a float array entry that must be an exact integer (perfect-square costs, padding search_range**2)"""
+    f = float(x)
+    if f != int(f):
+        raise ValueError('non-integral entry %r' % f)
+    return int(f)
+
+
+def gen_kernel_case(g, obs):
+    """-> (Coq term, python-side verdict code or 0)"""
+    if len(obs['calls']) != 1 or not obs['same_order']:
+        return None, 57
+    before, lc, after = obs['calls'][0]
+    ncands, cands, d2, cura, sums, tmp, ba = before
+    # the code numba_link gave every destination, read off its candidate array
+    tab = {}
+    for j, cs in enumerate(g['srcs']):
+        for i, (d, c) in enumerate(cs):
+            code = int(cands[j, i])
+            if tab.setdefault(d, code) != code:
+                return None, 51
+    # numba_link's read-back: dest_results = dcands[i] if i >= 0 else None
+    inv = {v: k for k, v in tab.items()}
+    for j, b in enumerate(after[6]):
+        want = None if int(b) < 0 else inv.get(int(b), 'unknown')
+        if want != obs['dests'][j]:
+            return None, 56
+    cZ, cl = common.cZ, common.clist
+    A = cl([cl(["(Some %s, %s)" % (cnat(d), cZ(c)) for d, c in cs] + ["(None, %s)" % cZ(g['R2'])]) for cs in g['srcs']])
+    tabt = cl(["(%s, %s)" % (cnat(d), cZ(z)) for d, z in sorted(tab.items())])
+    v1 = lambda a: cl([cZ(int(x)) for x in a])
+    f1 = lambda a: cl([cZ(exact_int(x)) for x in a])
+    m2 = lambda a, f: cl([cl([cZ(f(x)) for x in row]) for row in a])
+    arrs = "(%s, %s, %s, %s, %s, %s, %s)" % (v1(ncands), m2(cands, int), m2(d2, exact_int), v1(cura), f1(sums), v1(tmp), v1(ba))
+    res = "(%s, %s, %s, %s, %s)" % (cZ(int(lc)), v1(after[6]), v1(after[3]), f1(after[4]), v1(after[5]))
+    return "(%s, %s, %s, %s)" % (A, tabt, arrs, res), 0
+
+
+def gen_kernel_harness(chk):
+    """executes Gen/numbakernel.v (when it builds) next to the real _numba_subnet_norecur (interpreted) inside the real numba_link"""
+    if not STATE.get('genk_ok'):
+        chk.tally('generated _numba_subnet_norecur not executable (translation / build failed): generated-kernel harness skipped')
+        return
+    n = 200 if chk.tier == 'quick' else 5000
+    terms, cases = [], []
+    for k in range(n):
+        g = c02.gen_sq_graph(chk.rng, chk.tier)
+        g['numba'] = True
+        try:
+            obs = run_numba_kernel(g)
+            term, code = gen_kernel_case(g, obs)
+        except Exception as e:
+            chk.violation('numba_link: exception', 'numba_link / _numba_subnet_norecur raised %r' % e, dict(kind='genkernel', graph=g)); continue
+        chk.tally('generated _numba_subnet_norecur vs real kernel inside numba_link')
+        if code:
+            chk.count(('genkernel', g), len(g['srcs']) >= 3)
+            chk.violation('generated numba kernel: %s' % GENK_CODES[code], 'numba_link: %s' % GENK_CODES[code], dict(kind='genkernel', code=code, graph=g))
+            continue
+        terms.append(term); cases.append(g)
+    res = common.coq_eval_lists(chk.work, GENK_IMPORTS, GENK_FUNC, terms, tag='genkernel')
+    for g, r in zip(cases, res):
+        chk.count(('genkernel', g), len(g['srcs']) >= 3)
+        if r != 0:
+            chk.violation('generated numba kernel: %s' % GENK_CODES.get(r, r), '_numba_subnet_norecur / Gen.numbakernel.py__numba_subnet_norecur: %s' % GENK_CODES.get(r, r),
+                          dict(kind='genkernel', code=r, graph=g))
 
 
 def run_legacy(frames, sr, memory, neighbor, strategy):
@@ -296,6 +441,8 @@ def _run(chk):
         chk.sample(dict(run=metas[0][1], case=c02.jsonable(metas[0][2], metas[0][3])))
     # the generated explicit-stack solver (route T), executed
     gen_iter_harness(chk)
+    # the generated array kernel (route T), executed
+    gen_kernel_harness(chk)
     chk.coverage['rule'] = ("each lattice movie through 5 strategies x link_iter, link, link_df_iter, link with permuted rows, legacy.link_iter (KDTree + hash table), "
                             "pre-divided coordinates for per-axis ranges, and 'drop' (new + legacy); every labelling replayed by the Coq monitor; non-trivial = >= 6 features")
     chk.coverage['runs_checked'] = len(metas) + len(dmetas)
@@ -304,7 +451,12 @@ def _run(chk):
                         "Gen/iterative.v is produced by tools/py2coq_iterative.py (trusted translator, fail-closed; subset and conventions in its docstring, vocabulary in "
                         "Model/PyIterative.v): every Python int is a Z, l[i] wraps negative indices, dist**2 is an exact integer cost (float rounding of the partial sums not "
                         "modelled), deques are lists, the while loop runs on explicit fuel; the translation is exercised by exact comparison of the generated def with the "
-                        "real nonrecursive_link (perfect-square costs, returned source order and tie-breaking included)"]
+                        "real nonrecursive_link (perfect-square costs, returned source order and tie-breaking included)",
+                        "Gen/numbakernel.v is produced by tools/py2coq_numbakernel.py (trusted translator, fail-closed; vocabulary Model/PyNumbakernel.v): numpy arrays "
+                        "are lists with Python indexing (IndexError outside; compiled nopython code would not check - the theorem shows no access is outside), the float "
+                        "sums are exact integers, 1.0e23 is the exact value of that double and the theorems assume the sum of the sources' most expensive candidates "
+                        "stays below it; the kernel runs interpreted (numba absent); numba_link's array building (set / dict / slices) is not translated: it is tied by "
+                        "executing the generated kernel on the arrays the real numba_link built and checking them against kernel_inputs"]
 
 
 def replay(chk, path):
@@ -316,6 +468,18 @@ def _replay(chk, path):
     common.quiet_trackpy()
     build(chk)
     r = json.load(open(path))['replay']
+    if r.get('kind') == 'genkernel':
+        g = r['graph']
+        g['srcs'] = [[tuple(x) for x in cs] for cs in g['srcs']]
+        obs = run_numba_kernel(g)
+        term, code = gen_kernel_case(g, obs)
+        if not code:
+            code = common.coq_eval_lists(chk.work, GENK_IMPORTS, GENK_FUNC, [term], tag='genkernel')[0]
+        chk.count(('replay', g), True)
+        print('replay: generated _numba_subnet_norecur; real kernel calls', [(c[1], c[2][6].tolist()) for c in obs['calls']], 'code', code, GENK_CODES.get(code))
+        if code != 0:
+            chk.violation('generated numba kernel: %s' % GENK_CODES.get(code, code), GENK_CODES.get(code, code), dict(kind='genkernel', code=code, graph=g))
+        return
     if r.get('kind') == 'geniter':
         g = r['graph']
         g['srcs'] = [[tuple(x) for x in cs] for cs in g['srcs']]
